@@ -10,3 +10,30 @@ prop("C01",
      rule="rapid-generated KV histories (1-40 steps: write transactions of 1-5 Put/PutWithTimestamp/Delete over 2-3 buckets and a 2-7 key universe, reopen steps; both RAM index modes x RWMode x loading mode x sync x segment size 120..8192) checked after every step against an ordered-map-with-TTL model by a systematic read battery (Get of every key, GetAll, PrefixScan of every key prefix, RangeScan, drawn RangeScan/PrefixSearchScan). A case is non-trivial when at least one segment rotation happened and the history deleted a previously written key or left an expired key next to a live one in the same bucket; distinct = distinct case JSON (hashed).",
      assumptions=["expiry instants are at least 10^6 s away from the wall clock (valid until 2033)",
                   "the reference model (model_test.go) is correct"])
+
+prop("C05",
+     level="exploration", engine="E1+E2",
+     tests=[dict(name="TestC05Enum", quick=1, thorough=1, shardable=False),
+            dict(name="TestC05", quick=1200, thorough=15000)],
+     rule="(E2) exhaustive: every ds/list state of <=4 (thorough: <=5) elements over the values {\"\",a,|,a|b} x every operation instance (push/pop/peek/size, LRange/LTrim with both bounds in -n-2..n+1, LRem/LSet with every count/index in that range and every value), result AND resulting list compared with the Redis-style model through tolerant outcome sets; (E1) rapid histories of 1-60 single-call transactions on 1-3 list keys in 1-2 buckets with reopen steps, every call compared with the model and LRange(0,-1)/LSize/LPeek/RPeek re-read after every step. Non-trivial: applied to a non-empty list with a negative or out-of-range index/count or a value containing '|'.",
+     assumptions=["out-of-range bounds may be clamped (Redis) or reported as an error with the list unchanged; both are accepted, panics are not",
+                  "list keys do not contain '|' (the API rejects them)"],
+     technique="small-scope exhaustive enumeration + model-based property testing (rapid)")
+
+prop("C06",
+     level="exploration", engine="E1+E2",
+     tests=[dict(name="TestC06Enum", quick=1, thorough=1, shardable=False),
+            dict(name="TestC06", quick=1200, thorough=15000)],
+     rule="(E2) exhaustive: two set keys, each absent or holding any subset of {\"\",a,b} (81 states) x every ds/set operation instance (SAdd/SRem with one or two items, SPop, SMove between every key pair, SIsMember, SAreMembers, SMembers, SCard, SHasKey, SDiff, SUnion, SInter), result and resulting sets compared with the set model; (E1) rapid histories of 1-50 single-call transactions over 1-3 keys in 1-2 buckets (all Tx set APIs incl. SMoveByOneBucket/TwoBuckets, SPop validity predicate) with reopen steps, all sets re-read after every step and after every reopen. Non-trivial: history with a reopen after an SMove/SPop, or an empty or repeated member.",
+     assumptions=["SMove of an item that is not in the source: no-op/false, error, or the current behaviour (added to the destination) are all accepted (README is silent)",
+                  "known finding c06-empty-member-unremovable is applied as a named model deviation"],
+     technique="small-scope exhaustive enumeration + model-based property testing (rapid)")
+
+prop("C07",
+     level="exploration", engine="E1+E2",
+     tests=[dict(name="TestC07Enum", quick=2, thorough=4, timeout_quick=900),
+            dict(name="TestC07", quick=1500, thorough=15000)],
+     rule="(E2) exhaustive: every sorted set over member keys {\"\",a,b,c} each absent or scored in {-1,0,1,2} (625 states) x several skiplist layouts (math/rand seeds, insertion orders, re-scored members) x every operation instance (Put with every key/score, Remove, pops, peeks, GetByScoreRange with every bound pair in -2..3 x exclusive flags x limits 0..2 and nil options, GetByRankRange with every rank pair in -6..6 with and without removal, FindRank/FindRevRank/GetByKey); result, resulting membership, dict/rank-walk/size agreement and FindRank/GetByRank of every member checked against a (score,key)-ordered model; (E1) rapid histories of 1-50 single-call transactions through every Tx sorted-set API with reopen steps. Non-trivial: at least two members share a score, or the empty key is a member, or a reversed range lies below every score.",
+     assumptions=["rank 0 and ranks beyond the size are unspecified: queries must still return only current members in rank order, mutating calls use in-domain ranks",
+                  "known finding c07-zrem-empty-key is applied as a named model deviation"],
+     technique="small-scope exhaustive enumeration + model-based property testing (rapid)")
